@@ -12,6 +12,18 @@ NOT_APPLICABLE = {
 }
 
 CLAIMS = {
+    "C06": {
+        "text": "Decides the incremental-invalidation clause, not the solver: after every write to a problem input (constraints, space dimension, integer variables, objective, optimisation mode; directly or through a same-object callee) the set of possible values of the cached status at every normal exit is inside the set allowed for that input (path exploration of CFG x status-value sets, guards `status != UNSATISFIABLE` etc. interpreted); every switch(status) handles all five states; const members never write inputs through the const_cast alias; the cached witness is returned only on the edge of a successful is_satisfiable()/solve(). Necessary for 'incremental = from scratch'. Status/optimum/witness correctness of the simplex and branch-and-bound arithmetic is NOT decided.",
+        "design_ref": "DESIGN.md §3 C06",
+        "note": "assumes infeasibility is monotone under added constraints/dimensions; trusts the may-write summaries (depth 3) of same-object callees; numeric solver code is outside the claim",
+        "technique": "path-sensitive must-follow over clang CFG x abstract status set (custom dataflow), plus effect summaries",
+    },
+    "C07": {
+        "text": "Decides the incremental-invalidation clause, not the solver: after every write to input_cs / parameters / external_space_dim the cached status is within {UNSATISFIABLE, PARTIALLY_SATISFIABLE} at every normal exit; const members never write inputs; solution()/optimizing_solution() return the cached tree only after solve() or on the edge where the cached verdict is current; every switch(status) is exhaustive. Lexicographic minimality, cut generation, compatibility and termination of the parametric simplex are NOT decided.",
+        "design_ref": "DESIGN.md §3 C07",
+        "note": "set_big_parameter_dimension / set_control_parameter are reasoned exceptions (see rules/c07.py assumptions); numeric solver code is outside the claim",
+        "technique": "path-sensitive must-follow over clang CFG x abstract status set (custom dataflow), plus effect summaries",
+    },
     "C16": {
         "text": "Decides the representation-agnostic dispatch clause, not the behaviour: on every run-time dispatch over the dynamic type of a linear-expression operand (42 sites) the Dense and Sparse arms are identical modulo Dense_Row<->Sparse_Row and the tail is unreachable; every switch over Representation has both cases with identical bodies; the explicitly specialised members exist for both rows. Necessary for 'behave identically whether dense or sparse'; the CO_Tree as an ordered map (index arithmetic, rebalancing, iterator validity) is NOT decided.",
         "design_ref": "DESIGN.md §3 C16",
